@@ -1,6 +1,7 @@
 import MokapotVerif.Wire
 import MokapotVerif.Model.Fallback
 import MokapotVerif.Model.FallbackTail
+import MokapotVerif.Model.FallbackFull
 /-! Driver glue for `Model/Fallback.lean`. -/
 namespace Mk.Ops.Fallback
 open Mk V Mk.Fallback
@@ -109,11 +110,59 @@ def opDirStart : List V → Option V
       some (list [ofNat (dirStart a b).1, ofBool (dirStart a b).2])
   | _ => none
 
+/-- `fbfull <reset> <ensemble> [models] <thr> [colls] [reset scores per collection] [ensemble scores per collection]`
+→ `[[scores per collection] [descs]]` | `reject-label`: the tail of `brew` with the source chosen as the code does -/
+def opFull : List V → Option V
+  | [r, e, ms, t, cs, rs, es] => do
+      let r ← toBool? r
+      let e ← toBool? e
+      let ms ← toList? model? ms
+      let thr ← toRat? t
+      let cs ← toList? coll? cs
+      let rs ← toList? (toList? toInt?) rs
+      let es ← toList? (toList? toInt?) es
+      some (match brewFull r e ms thr cs { resetScores := rs, ensembleScores := es } with
+        | some out => ofOut out
+        | none => atom "reject-label")
+  | _ => none
+
+/-- `fbtailgspec [models] <thr> [colls] [compared scores per collection] [[scores] [descs]]` → T/F: `TailSpecG` on an
+output, for compared scores chosen by the caller -/
+def opTailGSpec : List V → Option V
+  | [ms, t, cs, sc, o] => do
+      let ms ← toList? model? ms
+      let thr ← toRat? t
+      let cs ← toList? coll? cs
+      let sc ← toList? (toList? toInt?) sc
+      let o ← out? o
+      some (ofBool (tailSpecGX ms thr cs sc o))
+  | _ => none
+
+def fitRun? : V → Option FitRun
+  | list [p, w] => do pure { pretrained := ← toBool? p, worse := ← toBool? w }
+  | _ => none
+
+/-- `fbreset [[pretrained worse]…]` → `[reset [is_trained per fold]]` -/
+def opReset : List V → Option V
+  | [rs] => do
+      let rs ← toList? fitRun? rs
+      some (list [ofBool (anyReset rs), ofList ofBool (rs.map fitTrained)])
+  | _ => none
+
+/-- `fbpep <desc> [score column]` → the scores handed to the PEP estimator -/
+def opPep : List V → Option V
+  | [d, col] => do
+      let d ← toBool? d
+      let col ← toList? toInt? col
+      some (ofList ofInt (pepScores d col))
+  | _ => none
+
 end Mk.Ops.Fallback
 
 namespace Mk.Ops
 open Mk.Ops.Fallback
 def fallbackOps : List (String × (List V → Option V)) :=
   [("fbdecide", opDecide), ("fbpred", opPred), ("fbbest", opBest), ("fbtail", opTail),
-   ("fbtailspec", opTailSpec), ("fbtotal", opTotal), ("fbentry", opEntry), ("fbdirstart", opDirStart)]
+   ("fbtailspec", opTailSpec), ("fbtotal", opTotal), ("fbentry", opEntry), ("fbdirstart", opDirStart),
+   ("fbfull", opFull), ("fbtailgspec", opTailGSpec), ("fbreset", opReset), ("fbpep", opPep)]
 end Mk.Ops
